@@ -615,6 +615,29 @@ def run_C16(res):
             process_compare_one(res, pre + ["isready", "ucinewgame", posline, "print", "history", "eval", "go depth 2", "quit"])
 
 
+    # sessions that never send `isready`: options given in the preamble must still be in force (same output as with `isready`)
+    from vlib import canon_transcript
+    for h in (1, 2, 3):
+        for newgame in (False, True):
+            body = (["ucinewgame"] if newgame else []) + ["position startpos moves e2e4 e7e5", "go depth 5", "quit"]
+            mbody = (["ucinewgame"] if newgame else []) + ["position startpos moves e2e4 e7e5", "go depth 3", "quit"]
+            a = ["setoption name Hash value %d" % h] + body
+            b = ["setoption name Hash value %d" % h, "isready"] + body
+            ra, rb = run_engine(a, "release", timeout=60), run_engine(b, "release", timeout=60)
+            res.evaluations += 2
+            res.count("sessions_without_isready")
+            ta = [l for l in canon_transcript(ra[1]) if l != "readyok"]
+            tb = [l for l in canon_transcript(rb[1]) if l != "readyok"]
+            if ra[0] != 0 or rb[0] != 0 or ra[3] or rb[3]:
+                res.fail("engine crashed or hung in a session without isready", script=a, exit=(ra[0], rb[0]))
+            elif ta != tb:
+                k = next((j for j, (x, y) in enumerate(zip(ta, tb)) if x != y), min(len(ta), len(tb)))
+                res.fail("output depends on whether `isready` was sent (an option given in the preamble is not in force without it)", script=a,
+                         observed=ta[k] if k < len(ta) else "<end>", with_isready=tb[k] if k < len(tb) else "<end>")
+            if h == 1:
+                process_compare_one(res, ["setoption name Hash value %d" % h] + mbody)
+
+
 # ------------------------------------------------------------------ C20
 def run_C20(res):
     n = 200 if res.tier == "quick" else 3000
